@@ -197,6 +197,51 @@ def midcopy_deliveries(ctx):
     ctx.extra["midcopy_delivery_cases"] = n
 
 
+def sparse_batch_restart(ctx):
+    """Sparse folders (old mail expunged, message numbers far above the count), several messages taken in by ONE resync
+    whose numbers straddle 8 / 16 / 32 / 64, then an orderly restart: every UID must still name the same message
+    (Message-ID), UIDs ascend, UIDNEXT does not move.  (The order in which a batch of new numbers is taken in is the order
+    that is persisted sorted.)"""
+    import re
+    n = 0
+    for edge in ((8, 16, 32, 64, 128) if ctx.thorough else (8, 32)):
+        for keep in (1, 3):
+            w = W.World(seed=ctx.rng.randrange(1 << 30))
+            try:
+                w.session("A")
+                w.deliver("inbox", edge - 2, unseen=True)
+                w.cmd("A", "a SELECT inbox")
+                w.cmd("A", f"a STORE 1:{edge - 2 - keep} +FLAGS.SILENT (\\Deleted)")
+                w.cmd("A", "a EXPUNGE")
+                w.deliver("inbox", 4, unseen=ctx.rng.random() < 0.5)      # numbers edge-1 .. edge+2 in one resync
+                w.cmd("A", "a NOOP")
+
+                def view():
+                    mb = w.server.active_mailboxes["inbox"]
+                    out = {}
+                    for uid, key in zip(mb.uids, mb.msg_keys):
+                        m = re.search(rb"Message-ID: <(\d+)@verif>", (w.root / "inbox" / str(key)).read_bytes())
+                        out[uid] = int(m.group(1)) if m else None
+                    return out, list(mb.uids), mb.next_uid
+                before, uids0, nxt0 = view()
+                w.cmd("A", "a UNSELECT")
+                w.restart()
+                w.session("A")
+                w.cmd("A", "a SELECT inbox")
+                after, uids1, nxt1 = view()
+                n += 1
+                ctx.count({"sparse_batch_restart": {"numbers_around": edge, "kept": keep}}, nontrivial=True)
+                moved = {u: (before[u], after.get(u)) for u in before if after.get(u) != before[u]}
+                if moved or uids1 != sorted(set(uids1)) or nxt1 < nxt0 or set(after) - set(before):
+                    ctx.violation("after an orderly restart a UID names another message (a batch of new messages was taken in "
+                                  "around message number %d): %s" % (edge, moved or (uids0, uids1, nxt0, nxt1)),
+                                  {"message_numbers_around": edge, "uid_to_message_before": before, "uid_to_message_after": after,
+                                   "uidnext": [nxt0, nxt1]})
+            finally:
+                w.close()
+    ctx.extra["sparse_batch_restart_cases"] = n
+
+
 def run(ctx):
     ctx.coverage["rule"] = ("histories of 45/70 commands over 1-3 sessions and two mailboxes, biased to message-adding and "
                             "-removing commands, external deliveries, polls (packing enabled at 4 messages / ratio 0.8), "
@@ -204,7 +249,8 @@ def run(ctx):
                             "(a gap where reuse could show) or contains a restart. Plus: histories with deliveries the server cannot see yet "
                             "(folder mtime unchanged; ledger and binding oracles only); DELETE/CREATE (also subscribed / with inferiors / "
                             "with a restart) and RENAME UIDVALIDITY scenarios; COPY/UID COPY/MOVE/APPEND with a delivery dropped into the destination "
-                            "folder right after the server's first or second write there (COPYUID/APPENDUID pairs checked by Message-ID)")
+                            "folder right after the server's first or second write there (COPYUID/APPENDUID pairs checked by Message-ID); sparse folders with "
+                            "a batch of arrivals around message numbers 8/32 (thorough: 8..128) followed by a restart")
     ok = ctx.prove("Properties/C02.v")
     n = 400 if ctx.thorough else 64
     hs = mboxx.generate(ctx, n, 70 if ctx.thorough else 45, mix=MIX, pack=(4, 4, 5))
@@ -243,6 +289,7 @@ def run(ctx):
     report_diffs(ctx, "C02", hs, bad, "model (proved) and implementation disagree (UIDs / UIDNEXT / response codes)")
     vv_namespace(ctx)
     midcopy_deliveries(ctx)
+    sparse_batch_restart(ctx)
     ctx.coverage["traces_validated_against_impl"] = len(hs) - len({i for i, _ in bad})
     ctx.extra.update({"histories": len(hs), "packs_observed": packs, "op_mix": _mix(hs)})
     ctx.assume += ["crash points are C11's; the persisted form (compact/expand of UID lists) is exercised through restarts",
